@@ -526,6 +526,10 @@ class McmcSim:
         if failed:
             self.stats["hr_skipped_failed_proposal"] += 1
             self.probe("op_returned_inf:" + kind)
+        elif nan_hr and (rec.hr_true is None or not math.isfinite(rec.hr_true)):
+            # undefined on both sides (e.g. inf - inf in the code, -inf in the reference after an
+            # overflowed trajectory): a failed proposal, nothing to compare
+            self.stats["hr_skipped_failed_proposal"] += 1
         elif rec.hr_true is not None:
             self.stats["hr_checked"] += 1
             tol = 1e-6 if kind.startswith("GMRF") else 1e-8
